@@ -88,6 +88,11 @@ impl Recorder {
     pub fn trace(&self) -> Vec<(ThreadId, SyncEv)> {
         self.0.lock().unwrap_or_else(|e| e.into_inner()).trace.clone().unwrap_or_default()
     }
+    /// a thread other than `me` that holds `lock`
+    pub fn holder_of(&self, lock: u8, me: ThreadId) -> Option<ThreadId> {
+        let st = self.0.lock().unwrap_or_else(|e| e.into_inner());
+        st.held.iter().find(|(t, h)| **t != me && h.contains(&lock)).map(|(t, _)| *t)
+    }
     pub fn anyone_waiting(&self) -> bool {
         !self.0.lock().unwrap_or_else(|e| e.into_inner()).waiting.is_empty()
     }
